@@ -15,6 +15,12 @@ Inductive case :=
 (* AddCA called on each (certificate, real self-signature verdict) in turn from an empty pool, at wall time
    now: returned verdicts (0 ok, 1 not a CA, 2 not self-signed, 3 stored but expired) and the final map as
    (key, stored Fingerprint, recomputed Fingerprint(), IsCA) *)
+(* ONE pool object P / bl used for a sequence of checks. Each step: mode (0 = VerifyCertificate, 1 =
+   VerifyCachedCertificate on the record an earlier step returned for this certificate), instant, certificate,
+   real CheckSignature verdict, verdict of the pool WITH its history, verdict of VerifyCertificate on a pool
+   built afresh from the same CAs and blocklist, and (mode 1) the record's signerFingerprint / fingerprint2 /
+   Fingerprint *)
+| CHistory (P : pool) (bl : blocklist) (steps : list (N * Z * cert * bool * bool * bool * str * str * str))
 | CAddCA (ops : list (cert * bool)) (now : Z) (verdicts : list N) (final : list (str * str * str * bool)).
 
 Definition add_verdict (r : (pool * bool) + aerr) : N :=
@@ -56,6 +62,15 @@ Definition check_case (c : case) : list N :=
           flag 2 (Bool.eqb (accept_spec P' bl' t' c sigok') okf) ++
           flag 2 (Bool.eqb okc okf)                                 (* cached re-check = full check, on the code *)
       end
+  | CHistory P bl steps =>
+      flat_map (fun s =>
+        let '(mode, t, c, sigok, okh, okf, csigner, cfp2, cfp) := s in
+        let m := if mode =? 0 then is_ok (verify P bl t c sigok)
+                 else is_ok (verify_cached P bl t (mkCached c cfp cfp2 csigner) sigok) in
+        flag 1 (Bool.eqb m okh) ++
+        flag 2 (Bool.eqb (accept_spec P bl t c sigok) okh) ++      (* the documented rule on the real verdict *)
+        flag 2 (Bool.eqb okh okf))                                  (* history independence, on the code *)
+      steps
   | CAddCA ops now verdicts final =>
       let '(P, vs) := run_adds ops now [] in
       let mine := map (fun kv => (fst kv, c_fp (snd kv))) P in
